@@ -33,7 +33,8 @@ type Options struct {
 	MapRanges    bool              // rewrite range-over-map loops
 	KnobConst    string            // name of an integer constant to turn into `var X = rt.Knob(<old>)`; "" = none
 	DeferAtExit  bool              // insert `defer rt.AtExit(-1)` at the top of main.main
-	GoStmts      bool              // rewrite `go f(x)` into rt.Go(func(){ f(x) })  (generated code: never needed today)
+	CoopGo       bool              // run goroutines as cooperative tasks: `go f(a)` -> rt.Go1(f, a), CoopRedirect applied; only if every go statement is rewritable and there are no channel operations
+	CoopRedirect map[string]string // extra import redirections that only make sense together with CoopGo (sync, runtime)
 	Env          []string
 	SkipTestFile bool
 }
@@ -45,21 +46,23 @@ type MapSite struct {
 }
 
 type Census struct {
-	Packages      int            `json:"packages"`
-	Files         int            `json:"files"`
-	StepSites     int            `json:"step_sites"`
-	StepSiteNames []string       `json:"-"` // index = site number: "file:line func"
-	MapSites      []MapSite      `json:"map_sites"`
-	Redirected    map[string]int `json:"redirected_imports"`
-	GoStmts       []string       `json:"go_statements"`
-	Selects       []string       `json:"select_statements"`
-	ChanOps       []string       `json:"channel_operations"`
-	SyncUses      []string       `json:"sync_uses"`
-	UnsafeUses    []string       `json:"unsafe_uses"`
-	EnvReads      []string       `json:"env_reads"`      // os.Getenv/Environ/LookupEnv, runtime.NumCPU/GOMAXPROCS, exec
-	MapIterCalls  []string       `json:"map_iter_calls"` // maps.Keys/Values/All, reflect MapRange/MapKeys, sync.Map.Range
-	PointerFormat []string       `json:"pointer_format"` // %p verbs in string literals
-	KnobFound     bool           `json:"knob_found"`
+	Packages       int            `json:"packages"`
+	Files          int            `json:"files"`
+	StepSites      int            `json:"step_sites"`
+	StepSiteNames  []string       `json:"-"` // index = site number: "file:line func"
+	MapSites       []MapSite      `json:"map_sites"`
+	Redirected     map[string]int `json:"redirected_imports"`
+	GoStmts        []string       `json:"go_statements"`
+	GoUnrewritable []string       `json:"go_statements_not_rewritable"`
+	CoopEnabled    bool           `json:"goroutines_scheduled_by_simulator"`
+	Selects        []string       `json:"select_statements"`
+	ChanOps        []string       `json:"channel_operations"`
+	SyncUses       []string       `json:"sync_uses"`
+	UnsafeUses     []string       `json:"unsafe_uses"`
+	EnvReads       []string       `json:"env_reads"`      // os.Getenv/Environ/LookupEnv, runtime.NumCPU/GOMAXPROCS, exec
+	MapIterCalls   []string       `json:"map_iter_calls"` // maps.Keys/Values/All, reflect MapRange/MapKeys, sync.Map.Range
+	PointerFormat  []string       `json:"pointer_format"` // %p verbs in string literals
+	KnobFound      bool           `json:"knob_found"`
 }
 
 type edit struct {
@@ -67,18 +70,27 @@ type edit struct {
 	del  int
 	text string
 	seq  int
+	coop bool // only applied when cooperative goroutine scheduling is enabled
 }
 
 type fileEdits struct {
-	name  string
-	edits []edit
+	name   string
+	src    []byte
+	edits  []edit
+	rtOff  int  // offset at which the run-time import is inserted
+	needRT bool // some unconditional edit needs the import
+	coopRT bool // a coop edit needs the import
+}
+
+func (fe *fileEdits) replCoop(off, del int, text string) {
+	fe.edits = append(fe.edits, edit{off, del, text, len(fe.edits), true})
 }
 
 func (fe *fileEdits) ins(off int, text string) {
-	fe.edits = append(fe.edits, edit{off, 0, text, len(fe.edits)})
+	fe.edits = append(fe.edits, edit{off, 0, text, len(fe.edits), false})
 }
 func (fe *fileEdits) repl(off, del int, text string) {
-	fe.edits = append(fe.edits, edit{off, del, text, len(fe.edits)})
+	fe.edits = append(fe.edits, edit{off, del, text, len(fe.edits), false})
 }
 
 const rtAlias = "verifsimrt"
@@ -123,6 +135,7 @@ func Instrument(o Options) (*Census, error) {
 	if firstErr != nil {
 		return nil, firstErr
 	}
+	var all []*fileEdits
 	for _, p := range own {
 		c.Packages++
 		for i, f := range p.Syntax {
@@ -131,9 +144,34 @@ func Instrument(o Options) (*Census, error) {
 				continue
 			}
 			c.Files++
-			if err := rewriteFile(o, c, p, f, fname); err != nil {
+			fe, err := rewriteFile(o, c, p, f, fname)
+			if err != nil {
 				return nil, err
 			}
+			all = append(all, fe)
+		}
+	}
+	c.CoopEnabled = o.CoopGo && len(c.GoUnrewritable) == 0 && len(c.ChanOps) == 0 && len(c.Selects) == 0
+	for _, fe := range all {
+		var edits []edit
+		need := fe.needRT
+		for _, e := range fe.edits {
+			if e.coop && !c.CoopEnabled {
+				continue
+			}
+			edits = append(edits, e)
+		}
+		if c.CoopEnabled && fe.coopRT {
+			need = true
+		}
+		if need {
+			edits = append(edits, edit{fe.rtOff, 0, "; import " + rtAlias + " " + strconv.Quote(o.RTImport), 1 << 30, false})
+		}
+		if len(edits) == 0 {
+			continue
+		}
+		if err := os.WriteFile(fe.name, applyEdits(fe.src, edits), 0o644); err != nil {
+			return nil, err
 		}
 	}
 	return c, nil
@@ -147,16 +185,16 @@ func relSite(o Options, pos token.Position) string {
 	return filepath.ToSlash(rel) + ":" + strconv.Itoa(pos.Line)
 }
 
-func rewriteFile(o Options, c *Census, p *packages.Package, f *ast.File, fname string) error {
+func rewriteFile(o Options, c *Census, p *packages.Package, f *ast.File, fname string) (*fileEdits, error) {
 	src, err := os.ReadFile(fname)
 	if err != nil {
-		return err
+		return nil, err
 	}
 	fset := p.Fset
 	tf := fset.File(f.Pos())
 	off := func(pos token.Pos) int { return tf.Offset(pos) }
 	site := func(pos token.Pos) string { return relSite(o, fset.Position(pos)) }
-	fe := &fileEdits{name: fname}
+	fe := &fileEdits{name: fname, src: src}
 	needRT := false
 
 	// --- imports ---
@@ -176,6 +214,13 @@ func rewriteFile(o Options, c *Census, p *packages.Package, f *ast.File, fname s
 				newLit = base + " " + newLit
 			}
 			fe.repl(off(im.Path.Pos()), len(im.Path.Value), newLit)
+		}
+		if repl, ok := o.CoopRedirect[path]; ok && o.CoopGo && (im.Name == nil || im.Name.Name != "_") {
+			newLit := strconv.Quote(repl)
+			if im.Name == nil {
+				newLit = path[strings.LastIndex(path, "/")+1:] + " " + newLit
+			}
+			fe.replCoop(off(im.Path.Pos()), len(im.Path.Value), newLit)
 		}
 		switch path {
 		case "unsafe":
@@ -259,6 +304,22 @@ func rewriteFile(o Options, c *Census, p *packages.Package, f *ast.File, fname s
 			step(x.Body)
 		case *ast.GoStmt:
 			c.GoStmts = append(c.GoStmts, site(x.Pos()))
+			if o.CoopGo {
+				call := x.Call
+				sig, _ := p.TypesInfo.TypeOf(call.Fun).(*types.Signature)
+				if sig == nil || sig.Variadic() || len(call.Args) > 4 || sig.Params().Len() != len(call.Args) || call.Ellipsis.IsValid() {
+					c.GoUnrewritable = append(c.GoUnrewritable, site(x.Pos()))
+				} else {
+					// go F(a, b)  ->  rt.Go2(F, a, b)
+					fe.replCoop(off(x.Go), off(call.Fun.Pos())-off(x.Go), rtAlias+".Go"+strconv.Itoa(len(call.Args))+"(")
+					if len(call.Args) == 0 {
+						fe.replCoop(off(call.Lparen), off(call.Rparen)+1-off(call.Lparen), ")")
+					} else {
+						fe.replCoop(off(call.Lparen), 1, ", ")
+					}
+					fe.coopRT = true
+				}
+			}
 		case *ast.SelectStmt:
 			c.Selects = append(c.Selects, site(x.Pos()))
 		case *ast.SendStmt:
@@ -302,14 +363,9 @@ func rewriteFile(o Options, c *Census, p *packages.Package, f *ast.File, fname s
 		return true
 	})
 
-	if needRT {
-		fe.ins(off(f.Name.End()), "; import "+rtAlias+" "+strconv.Quote(o.RTImport))
-	}
-	if len(fe.edits) == 0 {
-		return nil
-	}
-	out := applyEdits(src, fe.edits)
-	return os.WriteFile(fname, out, 0o644)
+	fe.needRT = needRT
+	fe.rtOff = off(f.Name.End())
+	return fe, nil
 }
 
 func stableKey(t types.Type) bool {
